@@ -114,7 +114,7 @@ mod verif_dump_table {
     return m.group(1)
 
 
-CHECK = re.compile(r"^Check (\d+): (\S+)\n\t - Status: (\w+)\n\t - Description: \"(.*?)\"\n\t - Location: (.*?)$", re.M)
+CHECK = re.compile(r"^Check (\d+): (.+?)\n\t - Status: (\w+)\n\t - Description: \"(.*?)\"\n\t - Location: (.*?)$", re.M)
 
 
 def run_harness(kdir, target_dir, h, extra=()):
@@ -254,6 +254,9 @@ def run_kani_group(root, plan, names, snap, sd, prop, tier):
                         "kind": kind, "fn": f"{units[u]['file']}::{h.get('target', '')}", "fn_tags": h["tags"], "tags": h["tags"],
                         "message": c["desc"], "clause": c["name"], "at": {"loc": c["loc"]}, "code": c["desc"],
                         "rendered": hr["out_tail"][-1500:], "witness": pb.get("test"), "native_replay": pb, "in_template": False})
+            elif hr["verdict"] == "FAILED" and not unwind_fail:
+                r["undecided"].append({"reason": "kani-failed-without-parsed-check", "messages": [h["name"] + ": " + hr["out_tail"][-600:]]})
+                rec["status"] = "failed-unparsed"
             elif unwind_fail:
                 r["undecided"].append({"reason": "kani-unwinding-bound-too-small", "messages": [h["name"]]})
                 rec["status"] = "unwind"
